@@ -223,8 +223,15 @@ func GenModel(rng *rand.Rand, o GenOpts) *Model {
 	if o.Large && rng.Intn(2) == 0 {
 		types = genNames(rng, typePoolLarge, 13+rng.Intn(18), false)
 	}
+	// degenerate outline: a model without any type definition (header only, or header and conditions)
+	noTypes := !o.Large && rng.Intn(25) == 0
+	if noTypes {
+		types = nil
+	}
 	var condNames []string
-	if o.Conds && o.Large && rng.Intn(3) == 0 {
+	if noTypes && o.Conds && rng.Intn(4) != 0 {
+		m.Conds = genConds(rng, 1+rng.Intn(3))
+	} else if o.Conds && o.Large && rng.Intn(3) == 0 {
 		m.Conds = genConds(rng, 14+rng.Intn(6)) // more than a dozen conditions
 		for _, c := range m.Conds {
 			condNames = append(condNames, c.Name)
